@@ -10,7 +10,7 @@ from ..runner import Outcome, Part
 
 ID = "C03"
 TITLE = "Power deposited over the sweep equals the power assigned"
-TECHNIQUE = "property-based testing (Hypothesis): generated user-power files integrated analytically by the harness (independent reference), compared with Assembly.total_power and the power deposited by the real sweep; metamorphic scaling / step-size pairs"
+TECHNIQUE = "property-based testing (Hypothesis): generated user-power files integrated analytically by the harness (independent reference), compared with Assembly.total_power and the power deposited by the real sweep; metamorphic scaling / step-size pairs; the VARPOW binary-flux path on the two intact data sets with generated options, checked against the harness' integral of the coefficient arrays"
 RULE = ("generated cores (1-7 assemblies, 1-3 types, optional unrodded regions so that bundle bounds fall inside power "
         "cells) with user power files of 1-4 axial cells, polynomial order 0-3, per-item shapes, zero cells and missing "
         "components; normalisation absent / given / zero, scaling factor, drawn axial_mesh_size.  Non-trivial: a "
